@@ -159,6 +159,19 @@ def gen_cases(ctx):
         fc = [rng.choice(chg) if rng.random() < pc else None for _f in range(nfr)]
         fm = [rng.choice(mult + [0, -2]) if rng.random() < pc else None for _f in range(nfr)]
         cases.append(("nfrag", (felez, c, fc, m, fm, rng.random() < 0.3)))
+    # stream D (history): the same flat electron list and the same arguments, split into fragments at
+    # different places one call after the other (a result cache keyed without the separators, or any other
+    # state kept between calls, shows up as a disagreement with the split-aware model)
+    flats = list(itertools.product([1, 2, 3, 7, 8], repeat=3)) + [(3, 1, 2, 1), (6, 7, 8, 1), (1, 1, 1, 1)]
+    if not ctx.thorough:
+        flats = rng.sample(flats, 40) + [(3, 1, 2), (6, 7, 8)]
+    for flat in flats:
+        nat = len(flat)
+        for args in ((None, None, None, None), (1, None, None, None), (None, None, None, 1), (0, 0, 1, None)):
+            for sep in range(1, nat):
+                felez = [list(flat[:sep]), list(flat[sep:])]
+                c, f1, m, m2 = args
+                cases.append(("resplit", (felez, c, [f1, None], m, [None, m2], False)))
     # corpus: docstring examples and edge cases found earlier
     corpus = [
         ([[7], [10], [7]], 1, [None, None, None], 4, [None, 3, None], False),
